@@ -173,10 +173,11 @@ def run(shard, ctx):
             try:
                 before_op = bytes(cmd.cdb)
                 cmd.opcode = cmd.opcode
+                after_one = bytes(cmd.cdb)
                 cmd.opcode = c.opcode_obj(c.sets[-1])
                 ctx.count("opcode_reassignments")
-                if bytes(cmd.cdb) != before_op:
-                    ctx.fail("C02:%s.cdb_changed_by_assigning_opcode" % c.name, "assigning cmd.opcode (the same entry) changed the CDB: %s, was %s" % (bytes(cmd.cdb).hex(), before_op.hex()), wit)
+                if after_one != before_op or bytes(cmd.cdb) != before_op:
+                    ctx.fail("C02:%s.cdb_changed_by_assigning_opcode" % c.name, "assigning cmd.opcode (the same entry) changed the CDB: %s, then %s, was %s" % (after_one.hex(), bytes(cmd.cdb).hex(), before_op.hex()), wit)
                     cmd.cdb = bytearray(before_op)
             except Exception as e:  # noqa: BLE001
                 ctx.fail("C02:%s.roundtrip_raises" % c.name, "assigning cmd.opcode raised %s" % type(e).__name__, wit, exc=e)
